@@ -382,9 +382,26 @@ fn apply_alignment(
         if all_cols.is_empty() {
             continue;
         }
-        let ncols = all_cols.iter().map(|c| c.len()).max().unwrap_or(0);
+        // The columns are re-rendered from the syntax tree. A line is only rewritten when that
+        // re-rendering reproduces the text of the line (ignoring whitespace); otherwise the line
+        // keeps its plain rendering, so alignment can never drop or alter comment text.
+        let rewritable: Vec<bool> = group
+            .iter()
+            .zip(all_cols.iter())
+            .map(|(&li, cols)| columns_reproduce_line(&result[li], cols))
+            .collect();
+        if rewritable.iter().filter(|ok| **ok).count() <= 1 {
+            continue;
+        }
+        let ncols = all_cols
+            .iter()
+            .zip(rewritable.iter())
+            .filter(|(_, ok)| **ok)
+            .map(|(c, _)| c.len())
+            .max()
+            .unwrap_or(0);
         let mut widths = vec![0usize; ncols];
-        for cols in &all_cols {
+        for (cols, _) in all_cols.iter().zip(rewritable.iter()).filter(|(_, ok)| **ok) {
             for (i, c) in cols.iter().enumerate() {
                 if i < widths.len() {
                     widths[i] = widths[i].max(c.len());
@@ -392,7 +409,7 @@ fn apply_alignment(
             }
         }
         for (gi, &li) in group.iter().enumerate() {
-            if gi >= all_cols.len() {
+            if gi >= all_cols.len() || !rewritable[gi] {
                 continue;
             }
             let cols = &all_cols[gi];
@@ -424,6 +441,30 @@ fn apply_alignment(
         }
     }
     result
+}
+
+fn line_plain_text(line: &[DocIR]) -> String {
+    line.iter()
+        .filter_map(|d| match d {
+            DocIR::Text(t) => Some(t.as_str()),
+            DocIR::Space => Some(" "),
+            DocIR::SourceToken(t) => Some(t.text()),
+            _ => None,
+        })
+        .collect()
+}
+
+/// Whether the line's prefix followed by `cols` has the same non-whitespace text as the line.
+fn columns_reproduce_line(line: &[DocIR], cols: &[String]) -> bool {
+    let mut rebuilt = line
+        .first()
+        .map(|d| line_plain_text(std::slice::from_ref(d)))
+        .unwrap_or_default();
+    for col in cols {
+        rebuilt.push_str(col);
+    }
+    let strip = |s: &str| -> String { s.chars().filter(|c| !c.is_whitespace()).collect() };
+    strip(&rebuilt) == strip(&line_plain_text(line))
 }
 
 fn find_tag_at_line(c: &LuaComment, target: usize) -> Option<LuaDocTag> {
